@@ -163,6 +163,40 @@ func main() {
 			knownKeys = append(knownKeys, k.Key)
 		}
 	}
+	// 2a. engine litmus suite, in the same instrumented build: concurrency programs with known
+	// outcome sets and race verdicts; any disagreement with Go's semantics is an engine error
+	selfNote := ""
+	if *prop != "SELF" {
+		selfDir := filepath.Join(scratch, "self")
+		os.MkdirAll(selfDir, 0o755)
+		cmd := exec.Command(bin, "-test.run", "^TestWorker$", "-test.timeout", "0")
+		cmd.Env = append(os.Environ(), "VPROP=SELF", "VTIER=quick", "VOUT="+selfDir, "GOMAXPROCS=1")
+		out, err := cmd.CombinedOutput()
+		if err != nil {
+			fmt.Printf("ENGINE-ERROR: litmus suite did not run: %v\n%s\n", err, tail(string(out), 30))
+			exit(2)
+		}
+		files, _ := filepath.Glob(filepath.Join(selfDir, "rep.*.json"))
+		n, ex := 0, 0
+		for _, f := range files {
+			data, _ := os.ReadFile(f)
+			var r report
+			if json.Unmarshal(data, &r) != nil {
+				continue
+			}
+			if r.EngineError != "" || !r.Exhaustive {
+				fmt.Printf("ENGINE-ERROR: litmus %s: %s (exhaustive=%v)\n", r.Scenario, r.EngineError, r.Exhaustive)
+				exit(2)
+			}
+			n++
+			ex += r.Executions
+		}
+		if n == 0 {
+			fmt.Println("ENGINE-ERROR: litmus suite produced no reports")
+			exit(2)
+		}
+		selfNote = fmt.Sprintf("engine litmus suite re-run in this build: %d concurrency programs (%d executions) produced exactly the outcome sets and race verdicts Go's semantics give", n, ex)
+	}
 	for w := 0; w < *workers; w++ {
 		go func() {
 			cmd := exec.Command(bin, "-test.run", "^TestWorker$", "-test.timeout", "0")
@@ -318,6 +352,7 @@ func main() {
 			"threads communicate only through operations the instrumenter rewrites (channels, sync, sync/atomic, context, errgroup): unsynchronised accesses are invisible here (C15 looks at them)",
 			"scheduling points at synchronisation operations only; releases (Unlock, WaitGroup.Done) are not points (sound: DESIGN.md §3.6)",
 			"the environment (transport, handlers, client programs) is the harness's; claims are about the enumerated drivers, bounds and alphabets only",
+			"the scheduler models Go's channel/mutex/atomic/context/timer/map-iteration semantics faithfully: " + selfNote,
 		},
 		"wall_s":     round(time.Since(start).Seconds()),
 		"violations": violations,
